@@ -127,7 +127,10 @@ impl Drop for EmitOnDrop {
 /// plan key `stream_echo` of an attach: the queue's output stream itself reports through the global it serves (a
 /// writer that counts its bytes as a metric, say) - on the queue's *writer thread*, for its first two entries
 /// (ids 7 000 000 + ...: no operation of the plan owns them, so the routing oracle leaves them alone).
-fn stream_echo(s: &RecStream, op: &Value, g: u64, dest: u64) {
+fn stream_echo(s: &mut RecStream, op: &Value, g: u64, dest: u64) {
+    // plan key `stream_panics_at`: the queue's output stream panics for its n-th entry - the writer thread dies, what
+    // is queued behind stays unwritten, and dropping the attach handle cannot claim otherwise (it panics)
+    s.panic_at_entry = op.get("stream_panics_at").and_then(|x| x.as_u64());
     if jb(op, "stream_echo", false) {
         s.on_entry_next.set(move |n: u64| {
             if n < 2 {
@@ -179,6 +182,9 @@ struct ThreadState {
 struct Ctl {
     /// (begun, key, gate) of the slow handle that came with the currently attached sink, if it has one
     slow: [Option<(Arc<std::sync::atomic::AtomicBool>, u64, Arc<std::sync::atomic::AtomicBool>)>; 2],
+    /// the attached sink is a queue whose output stream is going to panic (its writer thread dies): dropping its
+    /// attach handle panics, so that handle is never dropped *during* an unwinding (two panics at once abort)
+    panicky: [bool; 2],
     /// gates of slow destructors that are running (on helper threads) and have not been let go yet
     pending_gates: Vec<Arc<std::sync::atomic::AtomicBool>>,
     attach: [Option<AttachHandle>; 2],
@@ -232,12 +238,12 @@ fn g_ops(plan: &Value, tno: u64, ops: &[Value], log: &GLog, hist: &History, rts:
                         // the convenience form: attach_to_stream builds the queue itself
                         let (mut s, _ctl) = RecStream::new(dest as u32, hist.clone(), -1);
                         s.next_cost_ns = 1_000;
-                        stream_echo(&s, op, g, dest);
+                        stream_echo(&mut s, op, g, dest);
                         with_global!(g, G => G::attach_to_stream(s))
                     } else if queue {
                         let (mut s, _ctl) = RecStream::new(dest as u32, hist.clone(), -1);
                         s.next_cost_ns = 1_000;
-                        stream_echo(&s, op, g, dest);
+                        stream_echo(&mut s, op, g, dest);
                         let (sink, handle) = BackgroundQueueBuilder::new()
                             .capacity(256)
                             .thread_name(format!("gq{dest}"))
@@ -267,7 +273,9 @@ fn g_ops(plan: &Value, tno: u64, ops: &[Value], log: &GLog, hist: &History, rts:
                 });
                 match r {
                     Ok(h) => {
-                        ctl.lock().unwrap().attach[gi] = Some(h);
+                        let mut c = ctl.lock().unwrap();
+                        c.attach[gi] = Some(h);
+                        c.panicky[gi] = queue && op.get("stream_panics_at").map(|x| x.is_u64()).unwrap_or(false);
                         "ok".into()
                     }
                     Err(p) => format!("panic:{p}"),
@@ -305,7 +313,7 @@ fn g_ops(plan: &Value, tno: u64, ops: &[Value], log: &GLog, hist: &History, rts:
             "detach" => {
                 let h = ctl.lock().unwrap().attach[gi].take();
                 match h {
-                    Some(h) if jb(op, "in_panic", false) => {
+                    Some(h) if jb(op, "in_panic", false) && !ctl.lock().unwrap().panicky[gi] => {
                         // the attach handle is a local of a scope that unwinds
                         let _ = std::panic::catch_unwind(std::panic::AssertUnwindSafe(move || {
                             let _local = h;
@@ -460,7 +468,7 @@ fn global_main(plan: &Value, log: GLog, hist: History) {
         return;
     }
     let rts = runtimes();
-    let ctl = Arc::new(detsim::sync::Mutex::new(Ctl { slow: [None, None], pending_gates: vec![], attach: [None, None], rt_guard: BTreeMap::new() }));
+    let ctl = Arc::new(detsim::sync::Mutex::new(Ctl { slow: [None, None], panicky: [false, false], pending_gates: vec![], attach: [None, None], rt_guard: BTreeMap::new() }));
     let mut hs = vec![];
     for (i, ops) in ja(plan, "threads").iter().enumerate().skip(1) {
         let ops: Vec<Value> = ops.as_array().cloned().unwrap_or_default();
@@ -623,7 +631,9 @@ pub fn check_c17(plan: &Value, h: &[GEv], hist: &[Ev]) -> Option<Violation> {
                     }
                 }
                 "detach" => {
-                    let expected_panic = op.outcome.starts_with(&format!("panic:{HANDLE_PANIC}")) && attached_panics;
+                    // (a queue whose stream panicked has lost its writer thread: the detach panics in join().unwrap())
+                    let stream_died = attached_now.map(|d| hist.iter().any(|e| e.seq < op.ret && matches!(&e.k, K::Note(n) if *n == format!("stream_panicked:{d}")))).unwrap_or(false);
+                    let expected_panic = (op.outcome.starts_with(&format!("panic:{HANDLE_PANIC}")) && attached_panics) || (op.outcome.starts_with("panic:") && stream_died);
                     if op.outcome.starts_with("panic:") && !expected_panic {
                         return Some(Violation::new("global_damaged", format!("dropping the attach handle (global {g}) panicked: {}", op.outcome)));
                     }
@@ -776,6 +786,11 @@ pub fn check_c17(plan: &Value, h: &[GEv], hist: &[Ev]) -> Option<Violation> {
                                 // queue-backed destinations deliver later; only complain if no
                                 // destination was possible to have accepted it
                                 let accepted_by_queue = op.outcome == "ok";
+                                // a queue whose output stream panicked has lost its writer: what it accepts from then on
+                                // (and what was queued behind the fatal entry) goes nowhere - loudly, the detach panics
+                                if accepted_by_queue && allowed.iter().any(|d| hist.iter().any(|e| matches!(&e.k, K::Note(n) if *n == format!("stream_panicked:{d}")))) {
+                                    continue;
+                                }
                                 // `sink()` hands out a clone and appends after the lock is released: an
                                 // append racing with a detach may land in an already shut-down queue and is
                                 // then silently discarded (C05) -- legal when a control change overlapped
@@ -908,6 +923,9 @@ pub fn gen_c17(rng: &mut Rng) -> Value {
                         let h = mix(next_dest, next_id);
                         last["emitting_handle_accepted"] = json!(h % 3 == 0);
                         last["stream_echo"] = json!(h % 5 < 2);
+                        if h % 12 == 7 {
+                            last["stream_panics_at"] = json!((h / 12) % 3);
+                        }
                         // the handle that comes with a direct sink: plain, one whose destructor panics, one whose
                         // destructor blocks until the harness lets it go
                         last["handle"] = json!(["plain", "plain", "plain", "panic", "slow", "slow"][(h / 15 % 6) as usize]);
@@ -1066,6 +1084,9 @@ impl Scenario for GlobalDetach {
                     ops.push(json!({"op":"attach","g":0,"dest":20 + round,"queue":true,"stream": rng.chance(0.3)}));
                     if let Some(last) = ops.last_mut() {
                         last["stream_echo"] = json!(mix(next_id, 20 + round) % 3 == 0);
+                        if mix(next_id, 90 + round) % 10 == 0 {
+                            last["stream_panics_at"] = json!(mix(next_id, 91 + round) % 3);
+                        }
                     }
                     if rng.chance(0.3) {
                         // a second attach while attached: documented to panic, and the first sink
